@@ -269,6 +269,9 @@ def sample_of(case):
     return {'$truncated': text[:1500], 'chars': len(text)}
 
 
+HYP_CHUNK = 2500
+
+
 def derive_seed(seed, comp_idx, shard):
     h = hashlib.blake2b(('%d/%d/%d' % (seed, comp_idx, shard)).encode(),
                         digest_size=4).digest()
@@ -435,22 +438,45 @@ def _run_hyp(comp, rec, comp_idx, shard, nshards, tier, seed, known_patterns,
                   report_multiple_bugs=False, print_blob=False,
                   suppress_health_check=list(HealthCheck))
 
-    @hypothesis.seed(s)
-    @settings(max_examples=n, phases=[Phase.generate], **common)
-    @given(strat)
-    def collect(case):
-        rec.evaluate(case)
+    # One Hypothesis run keeps a tree of every choice sequence it has generated; with tens of
+    # thousands of large cases per shard (thorough tier) that tree grew to > 7 GB per worker
+    # and the OOM killer shot the workers.  The budget is therefore spent in runs of at most
+    # HYP_CHUNK cases, each with its own derived seed (run 0 keeps the shard's seed, so the
+    # quick tier - whose per-shard budgets are below the chunk size - is unchanged).
+    import gc
+    first_seen = {}
+    chunks = []
+    done = 0
+    while done < n:
+        k = len(chunks)
+        size = min(HYP_CHUNK, n - done)
+        sk = s if k == 0 else derive_seed(s, comp_idx, 1000003 + k)
+        chunks.append((sk, size))
+        before = set(rec.failures)
 
-    collect()
+        @hypothesis.seed(sk)
+        @settings(max_examples=size, phases=[Phase.generate], **common)
+        @given(strat)
+        def collect(case):
+            rec.evaluate(case)
+
+        collect()
+        for b in rec.failures:
+            if b not in before:
+                first_seen[b] = k
+        done += size
+        del collect
+        gc.collect()
 
     # shrink pass: one bucket at a time, bounded by a timer
     new = [b for b in rec.failures if not _is_known(b, known_patterns)]
     for bucket in sorted(new)[:3]:
         best = {'text': rec.failures[bucket]['case'],
                 'message': rec.failures[bucket]['message']}
+        sk, size = chunks[first_seen.get(bucket, 0)]
 
-        @hypothesis.seed(s)
-        @settings(max_examples=n, phases=[Phase.generate, Phase.shrink],
+        @hypothesis.seed(sk)
+        @settings(max_examples=size, phases=[Phase.generate, Phase.shrink],
                   **common)
         @given(strat)
         def shrinkit(case):
